@@ -65,6 +65,7 @@ def parseOp : List String → Option Op
   | ["commit"] => some (.commit .none)
   | "commitf" :: rest => (parseFail rest).map .commit
   | ["abort"] => some .abort
+  | ["sync"] => some .abort      -- Connection.sync() = transaction_manager.begin(): aborts, new transaction
   | ["sp"] => some .savepoint
   | ["rb", n] => n.toNat?.map .rollback
   | ["close"] => some .close
